@@ -150,16 +150,19 @@ def step (s : St α) : Op α → St α × List (Ev α)
   | .setHP id src amt dmg =>
     match find? s id with
     | none => (s, [.errUnknownTarget])
-    | some u => setHPU s u src amt dmg
+    | some u => if u.life = .dead then (s, []) else setHPU s u src amt dmg
   | .modHP id src amt dmg =>
     match find? s id with
     | none => (s, [.errUnknownTarget])
-    | some u => emitHP s u src u.hpRatio (clamp01 ((u.currentHP + amt) / u.maxHP)) dmg
+    | some u =>
+      if u.life = .dead then (s, [])
+      else emitHP s u src u.hpRatio (clamp01 ((u.currentHP + amt) / u.maxHP)) dmg
   | .modHPRatio id src ratio typ floor dmg =>
     match find? s id with
     | none => (s, [.errUnknownTarget])
     | some u =>
-      if typ == 2 then
+      if u.life = .dead then (s, [])   -- the dead stay dead: HP changes are ignored
+      else if typ == 2 then
         if (u.hpRatio + ratio * u.hpRatio) * u.maxHP < floor then setHPU s u src floor dmg
         else emitHP s u src u.hpRatio (clamp01 (u.hpRatio + ratio * u.hpRatio)) dmg
       else if typ == 1 then
